@@ -1182,7 +1182,16 @@ func TestVerifConfigProbe(t *testing.T) {
 	sim := verifsim.Get()
 	defer sim.Cleanup()
 	w := verifBuildWorld(sim)
-	config.Parsed.Feeds = map[string][]string{"f": {w.h.URL("/users/alice"), w.h.URL("/users/bob")}}
+	/* the feeds of the configuration file stay (one of them may list nothing); one is added */
+	if config.Parsed.Feeds == nil {
+		config.Parsed.Feeds = map[string][]string{}
+	}
+	config.Parsed.Feeds["f"] = []string{w.h.URL("/users/alice"), w.h.URL("/users/bob")}
+	w.put("/notes/att", map[string]any{"type": "Note", "name": "att", "content": "<p>attachments whose media type says little</p>", "attachment": []any{
+		map[string]any{"type": "Image", "url": w.h.URL("/a/1.png"), "mediaType": "png"},
+		map[string]any{"type": "Document", "url": w.h.URL("/a/2"), "mediaType": "text/"},
+		map[string]any{"type": "Link", "href": w.h.URL("/a/3"), "mediaType": 5},
+		map[string]any{"type": "Video", "url": w.h.URL("/a/4")}}})
 	step := func(name string, f func() string) {
 		out.Emit(verifkit.M{"ev": "step_begin", "step": name})
 		outcome := "ok"
@@ -1238,6 +1247,41 @@ func TestVerifConfigProbe(t *testing.T) {
 			return "hang"
 		}
 		v.s.Update('j')
+		if !v.settle(15 * time.Second) {
+			return "hang"
+		}
+		return "ok"
+	})
+	step("open_untyped", func() string {
+		/* links whose media type is stated but says nothing usable, handed to whatever hook is configured */
+		for _, b := range []byte(":open " + w.h.URL("/notes/att") + "\r") {
+			v.s.Update(b)
+		}
+		if !v.settle(15 * time.Second) {
+			return "hang"
+		}
+		for _, keys := range []string{"1\r", "2\r", "3\r", "4\r"} {
+			for _, b := range []byte(keys) {
+				v.s.Update(b)
+			}
+			if !v.settle(15 * time.Second) {
+				return "hang"
+			}
+		}
+		return "ok"
+	})
+	step("feed_empty", func() string {
+		if _, configured := config.Parsed.Feeds["empty"]; !configured {
+			return "ok"
+		}
+		for _, b := range []byte(":feed empty\r") {
+			v.s.Update(b)
+		}
+		if !v.settle(15 * time.Second) {
+			return "hang"
+		}
+		v.s.Update('j')
+		v.s.Update(' ')
 		if !v.settle(15 * time.Second) {
 			return "hang"
 		}
